@@ -49,7 +49,12 @@ GEN = {
  'C07': 'C07Gen.Statement (full): constructors, every mutation history (genRun), every read and scan of BitVector as generated from bit_vector.rs; bounds: final length + 1 < 2^64, reads len + 63 < 2^64.',
  'C09': 'C09Gen.Statement (full): CompactVector constructors (incl. from_slice), histories of push_int/set_int/extend, get_int/access/iter as generated from compact_vector.rs.',
  'C14': 'C14Gen.Statement (full): popcount, lsb, msb, select_in_word as generated from broadword.rs / intrinsics.rs, every word and k < 2^64, every configuration.',
- 'C16': 'C16Gen.Statement_partial: EliasFanoBuilder::new/push/extend histories as generated from elias_fano.rs (verdicts, no-op rejections, accepted values held); the build() read-back clause awaits the Elias-Fano query equivalences.',
+ 'C03': 'C03Gen.Statement (full): SArray::from_bits (+ enable_rank) and access, select1, counts, rank1, rank0, predecessor1, successor1 as generated from sarray.rs, incl. the no-set-bit case, for 2*len + 2 < 2^63.',
+ 'C04': 'C04Gen.Statement (full, plus arbitrary push/extend interleavings): EliasFanoBuilder::new + history + build + enable_rank, then select, delta, rank, predecessor, successor, iter(k), binsearch(_range), len, universe as generated from elias_fano.rs and elias_fano/iter.rs.',
+ 'C10': 'C10Gen.Statement (full): DacsOpt::from_slice (Err exactly for max_levels outside 1..=64), access for every index, len, level count and widths, iteration, as generated from dacs_opt.rs.',
+ 'C11': 'C11Gen.Statement (full): DacsByte::from_slice, access, len, num_levels, widths, iteration, as generated from dacs_byte.rs.',
+ 'C12': 'C12Gen.Statement (full): PrefixSummedEliasFano::from_slice (Err for the empty slice), access, len, sum, iteration, as generated from prefix_summed_elias_fano.rs.',
+ 'C16': 'C16Gen.Statement (full): EliasFanoBuilder::new/push/extend histories and the build() read-back, as generated from elias_fano.rs.',
  'C17': 'C17Gen.Statement_partial: BitVector::iter, CompactVector::iter, unary_iter next/skip1/skip0 sequences as generated; the other containers\' iterators await their equivalences.',
  'C18': 'C18Gen.Statement (full, every L >= 1): compute_opt_widths as generated from dacs_opt.rs returns, with no assertion firing / overflow / out-of-bounds / non-termination, a cost-optimal valid split.',
 }
